@@ -5,6 +5,7 @@ import (
 	"fmt"
 	"sort"
 	"strings"
+	"sync"
 	"time"
 
 	"github.com/buildbuildio/pebbles/common"
@@ -24,6 +25,7 @@ type amrItem struct {
 }
 
 type amrState struct {
+	mu          sync.Mutex // the harness functions run on worker goroutines (truly parallel in free mode)
 	s           *sched.Sim
 	res         *Result
 	mapCalls    map[int]int
@@ -88,7 +90,9 @@ func scenAMR(s *sched.Sim, cfg Config, res *Result) {
 	var atReturnReduce, atReturnMap, atReturnActive int
 
 	mapFn := func(it amrItem) (int, error) {
+		st.mu.Lock()
 		st.mapCalls[it.idx]++
+		st.mu.Unlock()
 		switch it.behave {
 		case 1:
 			s.Park("map.work")
@@ -107,7 +111,7 @@ func scenAMR(s *sched.Sim, cfg Config, res *Result) {
 					}
 					return 1, nil
 				},
-				func(acc int, v int) int { st.nestedRed++; return acc + v })
+				func(acc int, v int) int { st.mu.Lock(); st.nestedRed++; st.mu.Unlock(); return acc + v })
 			if errs != nil {
 				return 0, errs
 			}
@@ -127,27 +131,35 @@ func scenAMR(s *sched.Sim, cfg Config, res *Result) {
 		return it.idx, nil
 	}
 	reduceFn := func(acc []int, v int) []int {
+		st.mu.Lock()
 		st.reduceAct++
 		if st.reduceAct > st.maxAct {
 			st.maxAct = st.reduceAct
 		}
-		if returned {
+		late := returned
+		st.mu.Unlock()
+		if late {
 			res.Violate("C20/reduce-after-return", "reduce of %d entered after the call returned", v)
 		}
 		if reducePark {
 			s.Park("reduce.in")
-			if returned {
+			st.mu.Lock()
+			late = returned
+			st.mu.Unlock()
+			if late {
 				res.Violate("C20/reduce-after-return", "reduce of %d still active after the call returned", v)
 			}
 		}
+		st.mu.Lock()
 		st.reduceCalls[v]++
 		st.reduceAct--
+		st.mu.Unlock()
 		return append(acc, v)
 	}
 
-	s.Describe(map[string]any{"n": n, "items(idx:fail/behave/nestedN/nestedErr)": desc, "reduce_parks": reducePark, "policy": fmt.Sprintf("%+v", pol)})
 	s.Go("caller", func() {
 		acc, errs := common.AsyncMapReduce(items, []int(nil), mapFn, reduceFn)
+		st.mu.Lock()
 		atReturnMap = len(st.mapCalls)
 		atReturnReduce = 0
 		for _, c := range st.reduceCalls {
@@ -156,10 +168,12 @@ func scenAMR(s *sched.Sim, cfg Config, res *Result) {
 		atReturnActive = st.reduceAct
 		gotAcc, gotErrs = acc, errs
 		returned = true
+		st.mu.Unlock()
 	})
 
 	maxSteps := 4000
-	end := s.Run(func() bool { return returned && len(s.Alive()) == 0 }, maxSteps, 5*time.Second)
+	isReturned := func() bool { st.mu.Lock(); defer st.mu.Unlock(); return returned }
+	end := s.Run(func() bool { return isReturned() && len(s.Alive()) == 0 }, maxSteps, 5*time.Second)
 
 	// expected
 	var wantErrs []string
